@@ -1,8 +1,9 @@
 """Per-property check definitions (what each ./check <ID> runs)."""
-import json, os, re, subprocess
+import json, os, re, shutil, subprocess, sys
 from common import *
 import kani_engine as K
 import tv_engine as T
+import mir_engine as MM
 
 # ---------------------------------------------------------------- harness tables
 # name -> (tier, timeout_s).  Timeouts are ~4x the time measured on the pinned tree.
@@ -18,6 +19,28 @@ K_C05 = kh("c05_mirror", ["c05_opt_u8", "c05_opt_u16", "c05_opt_u32", "c05_opt_u
                           "c05_res_unit_unit", "c05_res_f32_char", "c05_res_opt_u16_bool", "c05_ver_u8_u64",
                           "c05_ver_u32_unit", "c05_ver_unit_unit", "c05_ver_unit_i16", "c05_ver_f64_bool",
                           "c05_ver_opt_u8_val3"])
+
+
+LEX3 = ["c06_ipv6_3", "c06_ipv4_3", "c06_two_char_3", "c06_one_char_3", "c06_as_number_3", "c06_hex_number_3", "c06_number_3",
+        "c06_f_string_3", "c06_string_3", "c06_char_3", "c06_keyword_or_ident_3", "c06_f_string_part_3", "c06_err_span_3"]
+LEX4 = ["c06_ipv6_4", "c06_ipv4_4", "c06_as_number_4", "c06_hex_number_4", "c06_number_4", "c06_string_4", "c06_char_4",
+        "c06_keyword_or_ident_4", "c06_number_ascii_5", "c06_ipv4_ascii_5", "c06_f_string_part_4", "c06_err_span_4"]
+K_C06 = kh("c06_lexer", LEX3, "quick", 1800) + kh("c06_lexer", LEX4, "thorough", 3600)
+K_C09 = kh("c09_grammar", ["c09_number_ascii_4", "c09_hex_asn_ascii_4", "c09_ident_3", "c09_precedence_table", "c09_quoted_ascii_4"], "quick", 1800) \
+    + kh("c09_grammar", ["c09_number_ascii_5", "c09_hex_asn_ascii_5", "c09_ident_4", "c09_quoted_ascii_5"], "thorough", 3600)
+K_C10 = kh("c10_builtins", ["c10_prefix_new_total_v4", "c10_prefix_new_total_v6"], "quick", 600)
+K_C17 = kh("c17_strings", ["c17_bytes_view_2", "c17_lines_get_2"], "quick", 1800) \
+    + kh("c17_strings", ["c17_bytes_view_3"], "thorough", 3600)
+K_C20 = kh("c20_memory", ["c20_memory_write_read", "c20_memory_rejects"], "quick", 1200)
+K_C15 = kh("c15_list", ["c15_compute_capacity", "c15_eq_distinct_rust", "c15_eq_alias", "c15_eq_distinct_erased_len"], "quick", 1200)
+K_C16 = kh("c16_sched", ["c16_get_vs_push1_linearizable"], "quick", 2400) \
+    + kh("c16_sched", ["c16_get_vs_push4_realloc_site1", "c16_get_vs_clone_drop"], "thorough", 5400)
+
+
+def c15_generated():
+    """(name, tier) of the generated operation-sequence harnesses, read from the generated source"""
+    src = open(os.path.join(VERIF, "kani", "src", "c15_list_gen.rs")).read()
+    return re.findall(r'\("(c15_seq_\w+)", "(quick|thorough)"\)', src)
 
 
 def select(table, tier):
@@ -58,6 +81,8 @@ TRUST_K = ["rustc/Kani MIR->GOTO translation and CBMC 6.11 (CaDiCaL back end)",
 
 def c02(res):
     r = kani_part(res, K_C02)
+    T.run_tv(res, {"F5", "F11"}, {"value"}, note="lists are shared (copies observe pushes, also inside for); records/enums: construct, copy, mutate one copy, compare, match with guards; field contents symbolic")
+    res.level = "model_checking"
     finish_k(res, r,
              "one Kani harness = one obligation over all symbolic sizes<=2^16 / aligns in {1,2,4,8,16}; non-trivial = all kani::cover! "
              "witnesses of the harness (e.g. 'padding inserted') were satisfiable",
@@ -68,6 +93,9 @@ def c02(res):
 
 def c05(res):
     r = kani_part(res, K_C05)
+    T.run_tv(res, {"F10", "F7"}, {"value", "trace"}, note="identity functions, pass-through to host functions, Option/Verdict built in the script and read by Rust "
+             "and vice versa: bytes returned/passed == independent C-layout encoding of the expected value, for all values")
+    res.level = "model_checking"
     finish_k(res, r,
              "one Kani harness per concrete instantiation of Option/Result/Verdict; all payload values symbolic; non-trivial = both variants covered",
              [{"harness": "c05_opt_u16", "obligation": "for all v: Option<u16>: tag byte, payload at LayoutBuilder(u8,u16) offset, size/align = roto "
@@ -81,31 +109,120 @@ def finish_t(res, assumptions):
 
 
 def c01(res):
-    T.run_tv(res, {"F1", "F2", "F3", "F4", "F8", "F9"}, {"value"},
+    T.run_tv(res, {"F1", "F2", "F3", "F4", "F8", "F9", "F11"}, {"value"},
              note="returned value of the emitted code == reference value for all arguments on which the reference is defined")
     finish_t(res, T.TRUST_T + ["inputs on which integer division is undefined are excluded here and decided under C10",
                                "float arithmetic compared structurally (same IEEE operation on the same operands), NaNs identified"])
 
 
 def c03(res):
-    T.run_tv(res, {"F6"}, {"ledger"},
+    T.run_tv(res, {"F6", "F11"}, {"ledger"},
              note="ownership ledger per feasible path: no double drop, no use after drop, no drop of uninitialised memory, nothing live at return")
     finish_t(res, T.TRUST_T + ["host functions take ownership of by-value arguments (mk/eat/peek models in tv.py)"])
 
 
 def c08(res):
-    T.run_tv(res, {"F7", "F7R", "F6"}, {"trace"},
+    T.run_tv(res, {"F7", "F7R", "F6", "F11"}, {"trace"},
              note="sequence of host calls and their argument values == reference trace on every jointly feasible path pair")
     finish_t(res, T.TRUST_T)
 
 
+def c06(res):
+    r = kani_part(res, K_C06)
+    finish_k(res, r,
+             "one Kani harness per token recogniser: EVERY UTF-8 string of <= 3 bytes (thorough: 4 bytes, ASCII 5) is symbolic input; "
+             "non-trivial = the harness's reachability witnesses (e.g. a full-length non-ASCII input was handled) are satisfiable",
+             [{"harness": "c06_keyword_or_ident_3", "obligation": "for all UTF-8 s, |s| <= 3: keyword_or_ident(s) does not panic; if it fires the span "
+               "is 0..end, 0 < end <= |s|, end on a char boundary, cursor == span"},
+              {"harness": "c06_err_span_3", "obligation": "with next_token replaced by 'skips any prefix, then declines': next_inner's error span lies "
+               "inside the input on char boundaries"}],
+             TRUST_K + ["stub: Lexer::record_almost_keyword -> no-op (diagnostic hint only)",
+                        "stub (err_span only): Lexer::next_token -> consumes an arbitrary boundary-aligned prefix and declines",
+                        "bound: tokens of at most 3 (quick) / 4-5 (thorough) bytes; composition argument in DESIGN.md 5/C06",
+                        "outside: parser, type checker, module loading, report rendering other than Span arithmetic"])
+
+
+def c09(res):
+    r = kani_part(res, K_C09)
+    T.run_tv(res, {"F2", "F8"}, {"value"},
+             note="literal spellings denote the value an independent decoder assigns; unparenthesised operator chains == the tree built from the documented precedence table")
+    finish_k(res, r,
+             "Kani: recognisers vs reference scanners written from the documented grammar, every ASCII string <= 4 bytes (ident: UTF-8 <= 3); "
+             "precedence: all 13x13 operator pairs symbolic. Engine T: literal cells F2 and operator chains F8, all argument values symbolic",
+             [{"harness": "c09_number_ascii_4", "obligation": "for all ASCII s, |s| <= 4: number(s) fires iff the grammar says s starts with a numeric literal; "
+               "same int/float classification, same digits/suffix split, same extent"},
+              {"harness": "c09_precedence_table", "obligation": "for all operator pairs (a, b): relative_associativity == documented table"}],
+             TRUST_K + T.TRUST_T + ["reference scanners in kani/src/c09_grammar.rs", "escape decoding (rustc_literal_escaper) and IP literal parsing (std::net) outside the claim"])
+    res.cov["evaluations"] += res.cov["tv"]["programs"]
+
+
 def c10(res):
+    known = [(r"c10_prefix_new_total", r"Prefix::new_relaxed is Err", next((k["text"] for k in known_findings() if k.get("role") == "prefix-new-unwrap"), "Prefix.new unwraps"))]
+    r = kani_part(res, K_C10, known=known)
     T.run_tv(res, {"F1", "F9"}, {"trap"}, known_roles={k["role"] for k in known_findings() if k["property"] == "C10"},
              note="for every reached sdiv/udiv/srem/urem: is there an argument assignment with trapping operands? each model replayed in a child process")
-    finish_t(res, T.TRUST_T)
+    finish_k(res, r, "engine T: every integer division/remainder instruction reached in the F1/F9 corpus is an obligation (trapping operands reachable?); "
+             "Kani: argument-validating kernels behind built-ins (string views under C17, list accessors under C15, Prefix::new_relaxed here)",
+             [{"harness": "c10_prefix_new_total_v4", "obligation": "for all (ipv4, len: u8): Prefix::new_relaxed(ip, len) is Ok (Prefix.new unwraps it inside an extern \"C\" trampoline)"}],
+             TRUST_K + T.TRUST_T)
+    res.level = "translation_validation"
 
 
-CHECKS = {"C01": c01, "C02": c02, "C03": c03, "C05": c05, "C08": c08, "C10": c10}
+def c15(res):
+    gen = [(f"c15_list_gen::{n}", t, 2400) for n, t in c15_generated()]
+    r = kani_part(res, K_C15 + gen)
+    finish_k(res, r,
+             "one Kani harness per (element type, pre-state, operation-kind sequence) - the kinds are enumerated, element values and get "
+             "indices are symbolic, CBMC's pointer checks cover every access; plus capacity arithmetic and == termination",
+             [{"harness": "c15_seq_u64_p2_p_h", "obligation": "two handles on one storage holding 2 symbolic elements; push via a, get(i) via b for all i <= len+1 or usize::MAX == array model"},
+              {"harness": "c15_eq_distinct_rust", "obligation": "a == b on two distinct one-element lists terminates (no lock on a held mutex) with the element-wise answer"}],
+             TRUST_K + ["stub: std::sync::Mutex::lock -> try_lock, failing check 'DEADLOCK' if the mutex is held (single-threaded world)",
+                        "stub (swap harnesses): core::ptr::swap_nonoverlapping -> byte-wise exchange loop",
+                        "outside (measured over budget): contains/index/concat/+ on two lists, to_vec/from, join, growth across the first reallocation, "
+                        "zero-sized and drop-tracked element types, script-side list_get"])
+
+
+def c16(res):
+    r = kani_part(res, K_C16)
+    finish_k(res, r,
+             "schedule = symbolic input: at every schedule point (hook H3) of the running operation a kani::any() bit decides whether the other "
+             "thread's whole operation runs there; CBMC's deallocated-object checks + linearisability against the array model",
+             [{"harness": "c16_get_vs_push1_linearizable", "obligation": "get(i), i <= 3 symbolic, on a 2-element list vs one push by the other thread at any "
+               "schedule point: result = value under the order of the critical sections"},
+              {"harness": "c16_get_vs_push4_realloc_site1 (thorough, 48 GB)", "obligation": "get(0) vs 4 pushes (reallocation) at the schedule point of List::get: "
+               "no access through the old buffer, element unchanged"}],
+             TRUST_K + ["sequentialisation: preempting operations run atomically (the per-operation mutex guarantees this for the critical sections)",
+                        "preemption depth 1, one preempting thread, one storage", "stub: Mutex::lock -> try_lock / DEADLOCK",
+                        "true parallelism and weak-memory effects outside the claim; ffi::list_get schedules over budget (timeouts) - not claimed"])
+
+
+def c17(res):
+    known = [(r"c17_lines_get", r"lines.get", next((k["text"] for k in known_findings() if k.get("role") == "string-lines-get"), "StringLines::get"))]
+    r = kani_part(res, K_C17, known=known)
+    finish_k(res, r,
+             "one Kani harness per string-view method group (lines.slice exhausted 16 GB and is not in the frozen set): every UTF-8 (bytes view) / ASCII (lines view) string of <= 2 bytes (thorough 3) and every "
+             "index in {0..len+1} u {usize::MAX}; result compared with explicit byte-loop references",
+             [{"harness": "c17_bytes_view_2", "obligation": "for all s, i, j: bytes.len == |s|; bytes.get(i) = char starting at byte i or None off-boundary/out of range; "
+               "bytes.slice(i, j) = s[i..j] iff i <= j <= |s| on boundaries"}],
+             TRUST_K + ["outside: char view and lines.len (std iterator adaptors exceed 16 GB), one-line delegations to std, floats, to_string, IpAddr/Prefix accessors, the name->closure binding"])
+
+
+def c20(res):
+    r = kani_part(res, K_C20)
+    MM.run_m(res)
+    finish_k(res, r,
+             "Kani on the evaluator's checked memory model: all allocation sizes <= 16, offsets <= 17, widths {1,2,4,8}; 'must stop' harnesses count only the "
+             "harness's own MUST-STOP assertion (the evaluator's asserts firing are the expected loud stops)",
+             [{"harness": "c20_memory_rejects", "obligation": "whenever a read/write completes, it was in bounds and aligned"}],
+             TRUST_K + T.TRUST_T + ["/verif/tv/mir.py (MIR-slice interpreter: core operators modelled by name, eval_operand and HashMap::insert modelled as variable lookup/store)",
+                                    "engine M covers straight-line scalar programs only: Jump/Switch/Call/Return plumbing, CallRuntime, memory instructions and therefore "
+                                    "host-call-sequence equality are outside; per-instruction agreement is what is decided"])
+    res.level = "translation_validation"
+    res.cov["evaluations"] += res.cov["mir"]["decided"]
+
+
+CHECKS = {"C01": c01, "C02": c02, "C03": c03, "C05": c05, "C06": c06, "C08": c08, "C09": c09, "C10": c10, "C15": c15, "C16": c16,
+          "C17": c17, "C20": c20}
 
 
 def setup():
@@ -124,6 +241,57 @@ def replay(pid, path):
         for k, v in rep.items():
             print(f"--- {k}\n{v['tail']}")
         if how:
+            print(f"VIOLATION property={pid} replay={path}")
+            return 1
+        return 0
+    if obj.get("engine") in ("tv", "mir"):
+        import tempfile
+        T.build()
+        sys.path.insert(0, os.path.join(VERIF, "tv"))
+        import tv as TV
+        d = tempfile.mkdtemp(dir=BUILD)
+        script = os.path.join(d, "replay.roto")
+        open(script, "w").write(obj["source"])
+        real = TV.run_real(script, "main", obj["signature"], obj["args"], child=True)
+        print("real JIT run:", json.dumps(real)[:600])
+        again = False
+        if obj.get("engine") == "mir":
+            rc, out, _ = run([TV.EXTRACT, "eval", script, obj["types"]] + [hex(a) for a in obj["args"]], timeout=60)
+            print("real evaluator run:", out.strip().split("\n")[-1])
+            try:
+                ev = json.loads(out.strip().split("\n")[-1]).get("eval")
+                jit = (real.get("out") or {}).get("ret")
+                again = ev not in (None, "loud-stop", "none", "other") and jit is not None and int(ev, 16) != int(jit, 16)
+            except Exception:
+                again = False
+        elif obj["kind"] == "trap":
+            again = real.get("signal") is not None
+        elif real.get("signal") is not None or real.get("out") is None:
+            again = True
+        elif obj["kind"] == "value":
+            want = obj["replay"].get("want")
+            got = real["out"].get("ret")
+            norm = lambda x: ({k: norm(v) for k, v in x.items()} if isinstance(x, dict) else (int(x, 16) if isinstance(x, str) and x.startswith("0x") else x))
+            print("reference value:", want, "real:", got)
+            again = norm(want) != norm(got)
+        elif obj["kind"] == "trace":
+            want = obj["replay"].get("want")
+            got = []
+            for e in real["out"]["events"]:
+                p = e.split()
+                if p[0] == "call":
+                    got.append(p[1] + " " + " ".join(p[3:] if p[1] in ("eat", "peek") else p[2:]))
+                elif p[0].startswith(("emit", "pure")):
+                    got.append(e)
+            print("reference trace:", want, "real:", got)
+            again = want != got
+        elif obj["kind"] == "ledger":
+            import tvrun
+            ok, det = tvrun.confirm_ledger(real["out"])
+            print(det)
+            again = ok
+        shutil.rmtree(d, ignore_errors=True)
+        if again:
             print(f"VIOLATION property={pid} replay={path}")
             return 1
         return 0
